@@ -1,7 +1,7 @@
 (* C10 — non-vacuity examples and sanity evaluations of the model. *)
 From Coq Require Import ZArith List Bool QArith Qround Lia.
 Import ListNotations.
-From GV Require Import Common.Wire Common.PyInt C10.Model C10.Lemmas.
+From GV Require Import Common.Wire Common.PyInt C10.Model C10.Lemmas C10.GenEquiv.
 From GV Require C20.Model.
 Open Scope Z_scope.
 
@@ -66,3 +66,63 @@ Example ex_total : Qred (in_range_total 0 4 ex_pts) = 5. Proof. vm_compute. refl
 Example ex_hyp_hist : 0 < 4 /\ (0 < 4)%Z. Proof. split; reflexivity. Qed.
 (* the identity is monotone: a legitimate instance of the abstract log map *)
 Example ex_mono : forall a b : Q, 0 < a -> a <= b -> (fun x => x) a <= (fun x => x) b. Proof. intros a b _ H. exact H. Qed.
+
+(* ---------- the translated skeleton (coq/gen/Gen_stat.v) on the same instance ---------- *)
+Close Scope Q_scope.
+Open Scope Z_scope.
+Definition ex_gen (s : selection) (ax : pyaxis) (v : pyview) (ncm : Z) :=
+  match gen_compute_statistic Z (list Z) (fun l => l) [] [(-1)%Z] (fun _ => true) (fun c => (0 <? c)%Z) ex_shape ex_a 2 20 s ax true false v ncm with
+  | Ok (sh, r) => Some (sh, map r (box sh))
+  | Err _ => None
+  end.
+
+(* view (slice(1, None),), mask on the 2 x 2 block, axis=0: the same padded result as the hand model *)
+Example ex_gen_stat : ex_gen (SelMask ex_m) (AxInt 0) (PVTuple [VSlice (Slice (Some 1) None None)]) 40000000
+                      = Some ([4], [[]; [5; 9]; [6; 10]; []]).
+Proof. vm_compute. reflexivity. Qed.
+
+(* an integer entry in the view: row 2, columns 1:, no axis *)
+Example ex_gen_int_view : ex_gen (SelMask ex_m) AxNone (PVTuple [VInt 2; VSlice (Slice (Some 1) None None)]) 40000000
+                          = Some ([], [[9; 10]]).
+Proof. vm_compute. reflexivity. Qed.
+
+(* a strided view bails out of the crop (no padding) *)
+Example ex_gen_bail : ex_gen (SelMask ex_m) (AxInt 0) (PVTuple [VSlice (Slice None None None); VSlice (Slice None None (Some 2))]) 40000000
+                      = Some ([2], [[]; [6; 10]]).
+Proof. vm_compute. reflexivity. Qed.
+
+(* the chunk loop: axis=(0,), 12 elements > n_chunk_max = 5: chunks of 1 column; equal to the unchunked result *)
+Example ex_gen_chunked : ex_gen (SelMask ex_m) (AxTuple [0]) PVNone 5 = ex_gen (SelMask ex_m) (AxTuple [0]) PVNone 40000000
+                         /\ ex_gen (SelMask ex_m) (AxTuple [0]) PVNone 5 = Some ([4], [[]; [5; 9]; [6; 10]; []]).
+Proof. vm_compute. split; reflexivity. Qed.
+
+(* the hypotheses of translated_statistic_equals_definition / translated_chunking_irrelevant are met (non-vacuity) *)
+Example ex_gen_hyps :
+  chunk_cond ex_shape (SelMask ex_m) (AxInt 0) (pv (Some [VSlice (Slice (Some 1) None None)])) 40000000 = false /\
+  shortcut (SelMask ex_m) (AxInt 0) (pv (Some [VSlice (Slice (Some 1) None None)])) = false /\
+  chunk_cond ex_shape (SelMask ex_m) (AxTuple [0]) PVNone 5 = true /\
+  (forall i, 0 <= i < zlen ex_shape -> existsb (Z.eqb i) [0] = negb (i =? Z.of_nat 1)) /\
+  zprod ex_shape > 5 /\ (C20.Model.fuel_for ex_shape <= 20)%nat.
+Proof.
+  repeat split; try reflexivity.
+  - intros i Hi. unfold ex_shape, zlen in Hi. simpl in Hi. assert (i = 0 \/ i = 1) as [-> | ->] by lia; reflexivity.
+  - vm_compute. lia.
+Qed.
+
+(* SliceSubsetState shortcut *)
+Example ex_gen_shortcut : ex_gen (SelSlices [Slice (Some 1) None None; Slice None (Some 2) None]) AxNone PVNone 40000000
+                          = Some ([], [[4; 5; 8; 9]]).
+Proof. vm_compute. reflexivity. Qed.
+
+(* the translated histogram: 4 bins over [0, 4], values 0 1 2 4 4 (one unselected 3, one NaN), weights 1 *)
+Open Scope Q_scope.
+Definition ex_hpts : list (option Q * option Q * bool * Q) :=
+  [(Some 0, None, true, 1); (Some 1, None, true, 1); (Some 2, None, true, 1); (Some 3, None, false, 1);
+   (Some 4, None, true, 1); (Some 4, None, true, 1); (None, None, true, 1)].
+Example ex_gen_hist : gen_hist1 false 0 4 0 4 4 ex_hpts = Ok (HBins [1; 1; 1; 2] [0; 1; 1; 0]).
+Proof. vm_compute. reflexivity. Qed.
+Example ex_gen_hist_reversed : gen_hist1 false 4 0 4 0 4 ex_hpts = gen_hist1 false 0 4 0 4 4 ex_hpts.
+Proof. vm_compute. reflexivity. Qed.
+Example ex_gen_hist_hyps : ~ (0 == 4) /\ (false = true -> ~ (0 == 4)).
+Proof. split; [intros H; discriminate H|intros H; discriminate H]. Qed.
+Close Scope Q_scope.
